@@ -28,6 +28,9 @@ def _find_calls(fn, name):
 
 def run(ctx):
     rep = ctx.report
+    from ..typestate import check_functions as _rowbuffers
+    rep.rule('R9.9', 'output rows are assembled in a container that is created anew (or emptied) between two deliveries: no cell of one output row is carried into the next (row-buffer typestate)')
+    ctx.floor('row_buffer_generators', _rowbuffers(ctx, rep, 'R9.9', ctx.functions(['petl.transform.reductions', 'petl.util.base'])), 8)
     rep.explanation = (
         'Decides that every grouping operator has the pipeline shape from which row conservation follows, given C05 '
         '(stable sort) and the contract of itertools.groupby (consecutive equal keys form one group): (R9.1) the view sorts '
